@@ -105,6 +105,7 @@ func (d *dirState) sendTriedAny() bool {
 
 func (r *flowRun) teardown(srv mpx.Server, eps []*endpoint) {
 	r.errorsAtTeardown = len(r.log.errors)
+	r.panicsAtTeardown = simrt.PanicCount()
 	r.tornDown = true
 	if !r.plan.Faulty {
 		// no connection may have been closed by anything the channels did
@@ -217,7 +218,38 @@ func genChan(g *simrt.Rng, e *Env, nCli, maxMsg, maxSize int, ends []int) ChanPl
 	return c
 }
 
+// genBulk is the "stalled receiver under a full default window" profile: one channel,
+// megabytes of backlog in the receive queue before the receiver starts to drain.
+func genBulk(g *simrt.Rng, tier string) *FlowPlan {
+	p := &FlowPlan{Env: genEnv(g, tier)}
+	p.Opt.Window = 16 << 20
+	p.Opt.WriteQueue = 16 << 20
+	p.Net.BufCap = 0
+	p.Net.SegMax, p.Net.ReadMax, p.Net.ShortRead = 0, 0, 0
+	p.Net.LatencyMinUs, p.Net.LatencyMaxUs = 0, 0
+	if p.Sched.Policy == simrt.PolicyRandom && p.Sched.PYield > 0.01 {
+		p.Sched.PYield = 0.002
+	}
+	p.Clients = []ClientPlan{{Kind: "connect"}}
+	size := simrt.Pick(g, 65536, 65536, 262144, 1<<20)
+	total := (9 + g.IntN(10)) << 20
+	c := ChanPlan{End: EndClientClose}
+	for n := 0; n < total; n += size {
+		c.C2S = append(c.C2S, Msg{Size: size})
+	}
+	if g.Bool(0.3) {
+		c.C2S = append(c.C2S[:3:3], append([]Msg{{Size: 17 << 20}}, c.C2S[3:8]...)...)
+	}
+	c.ClosePayload = 100
+	c.RecvDelayUs[1] = 20000 // the handler sleeps 20 ms before each Receive: the sender runs ahead
+	p.Channels = []ChanPlan{c}
+	return p
+}
+
 func (mpxflowScn) Generate(g *simrt.Rng, tier string) any {
+	if g.Bool(0.01) {
+		return genBulk(g, tier)
+	}
 	// C03 ends channels in an orderly way: the ending side has received everything it
 	// waits for. (Ending at arbitrary instants against in-flight traffic is C06's scenario.)
 	p := genFlowPlan(g, tier, []int{EndClientClose, EndClientFree, EndServerClose, EndHandlerOK})
@@ -279,12 +311,13 @@ func runFlow(t *testing.T, seed uint64, p *FlowPlan, o RunOpts, extra func(net *
 		rep.Violations = append(rep.Violations, r.checkComplete(res)...)
 		if !r.tornDown {
 			r.errorsAtTeardown = len(r.log.errors)
+			r.panicsAtTeardown = len(res.Panics)
 		}
 		for _, l := range r.log.errors[:min(r.errorsAtTeardown, len(r.log.errors))] {
 			rep.violate("C06-library-error", "the library logged an error on a healthy run: %s", trunc(l, 300))
 			break
 		}
-		for _, pn := range res.Panics {
+		for _, pn := range res.Panics[:min(r.panicsAtTeardown, len(res.Panics))] {
 			rep.violate("C06-library-panic", "the library panicked on a healthy run: %s", trunc(pn, 600))
 			break
 		}
